@@ -1,7 +1,7 @@
 """C16 -- sanitize() closes the requirement relation minimally and reports truthfully"""
 from runner import Harness
 from symx import Violation
-from graphs.common import GJob, GSched, GPure
+from graphs.common import GJob, GSched, GPure, capture
 
 TITLE = "sanitize() closes the requirement relation minimally and reports truthfully"
 TECHNIQUE = "solver-driven bounded-exhaustive symbolic execution of the real sanitize(): tree template and every ordered pair of distinct nodes as a requirement edge are z3 symbols case-split by the explorer; oracle = set intersection with the member set, per scheduler"
@@ -19,6 +19,7 @@ TEMPLATES = {
     "nest(j)+j+o": ([["j"], "j"], 1),
     "nest(nest(j))+j": ([[["j"]], "j"], 0),
     "nest(j)+nest(j)": ([["j"], ["j"]], 0),
+    "nest()+j+j": ([[], "j", "j"], 0),
     "nest(nest(j),j)+j": ([[["j"], "j"], "j"], 0),
     "nest(nest(j,j))+o": ([[["j", "j"]]], 1),
     "nest(j,j)+nest(j)": ([["j", "j"], ["j"]], 0),
@@ -85,7 +86,9 @@ def harness(name, tnames, max_nodes):
         if crossing:
             api.note("nt")
         info = {"template": tname, "requires": {str(x): sorted(map(str, before[x])) for x in nodes}}
-        r1 = top.sanitize()
+        if api.flag("verbose"):
+            top.verbose = True
+        r1 = capture(top.sanitize)[0]
         removed_any = False
         for s in scheds_of(top):
             members = set(s.jobs)
@@ -99,7 +102,7 @@ def harness(name, tnames, max_nodes):
         if r1 is not (not removed_any):
             raise Violation("C16: sanitize() returned %r although %s had to be removed"
                             % (r1, "something" if removed_any else "nothing"), {"info": info})
-        r2 = top.sanitize()
+        r2 = capture(top.sanitize)[0]
         if r2 is not True:
             raise Violation("C16: a second sanitize() returned %r" % (r2,), {"info": info})
         # history: the tree is edited after having been sanitized, and sanitized again
@@ -111,7 +114,7 @@ def harness(name, tnames, max_nodes):
             keep = set(b.required)
             b.requires(a)
             info["then"] = "%s.requires(%s); sanitize()" % (b, a)
-            r3 = top.sanitize()
+            r3 = capture(top.sanitize)[0]
             if set(b.required) != keep:
                 raise Violation("C16: after a new dangling requirement %s -> %s and sanitize(), %s requires %s, "
                                 "expected %s" % (a, b, b, sorted(map(str, b.required)), sorted(map(str, keep))),
@@ -130,7 +133,7 @@ def harness(name, tnames, max_nodes):
 def harnesses(tier):
     if tier == "quick":
         return [harness("4-nodes", ["flat3+o", "flat2+oo", "nest(j,j)+j", "nest(j)+j+o", "nest(nest(j))+j",
-                                    "nest(j)+nest(j)"], 4)]
+                                    "nest(j)+nest(j)", "nest()+j+j"], 4)]
     return [harness("4-nodes", ["flat3+o", "flat2+oo", "nest(j,j)+j", "nest(j)+j+o", "nest(nest(j))+j",
                                 "nest(j)+nest(j)"], 4),
             harness("5-nodes", ["nest(nest(j),j)+j", "nest(nest(j,j))+o", "nest(j,j)+nest(j)"], 5)]
